@@ -382,6 +382,54 @@ Definition cut_points_truth (l : log) (stride limit : N) : N * list cutpoint :=
   let latest := (count / stride) * stride in
   (count, if latest =? 0 then [] else cut_points_from l stride latest 0 (N.to_nat (clamp_limit limit))).
 
+(* ---------- compaction_cut_points_v1 through the caches ----------
+   The message count and the ordinal look-ups go through the ordinal index (Model below: ord_count /
+   ord_by_ordinal); here they are taken as answered from an index that is the projection (the
+   harness compares this path only on such stores).  Per cut point the checkpoint look-up goes
+   through the `.comp` sidecar; `Ok(None)` is believed when the full sidecar has a readable last
+   line, `Err` (and `Ok(None)` without a full sidecar) falls back to the replay — and once the
+   replay has been read ([replayed]) every later cut point without a cache answer consults it. *)
+Definition full_has_last (full : sfile) : bool :=
+  match full with
+  | Some ls => match rev ls with LGood _ :: _ => true | _ => false end
+  | None => false
+  end.
+
+Definition mk_cut_point (ordinal : N) (m : frame) (best : option frame) : cutpoint :=
+  let already := match best with Some b => ck_to_seq b =? fseq m | None => false end in
+  {| cp_ordinal := ordinal; cp_to_seq := fseq m; cp_already := already;
+     cp_latest := if already then option_map fseq best else None |}.
+
+(* -> (best checkpoint for this cut point, replayed') *)
+Definition ckpt_lookup (me mb : N) (comp full : sfile) (l : log) (replayed : bool) (mt : N) : option frame * bool :=
+  let from_replay := latest_ckpt mt None (replay_fast full l) in
+  match latest_ckpt_cache me mb comp full mt with
+  | CkSome (Some f) => (Some f, replayed)
+  | CkErr => (from_replay, true)
+  | _ => if replayed then (from_replay, true)
+         else if full_has_last full then (None, false) else (from_replay, true)
+  end.
+
+Fixpoint cut_points_fast_from (me mb : N) (comp full : sfile) (l : log) (stride latest : N) (i : N)
+         (replayed : bool) (n : nat) : list cutpoint :=
+  match n with
+  | O => []
+  | S n' =>
+    let ordinal := latest - i * stride in
+    if ordinal =? 0 then []
+    else match nth_error (messages l) (N.to_nat (ordinal - 1)) with
+         | Some m =>
+           let '(best, rp) := ckpt_lookup me mb comp full l replayed (fseq m) in
+           mk_cut_point ordinal m best :: cut_points_fast_from me mb comp full l stride latest (i + 1) rp n'
+         | None => cut_points_fast_from me mb comp full l stride latest (i + 1) replayed n'
+         end
+  end.
+
+Definition cut_points_fast (me mb : N) (comp full : sfile) (l : log) (stride limit : N) : N * list cutpoint :=
+  let count := nlen (messages l) in
+  let latest := (count / stride) * stride in
+  (count, if latest =? 0 then [] else cut_points_fast_from me mb comp full l stride latest 0 false (N.to_nat (clamp_limit limit))).
+
 (* ---------- branch / handoff cut resolution (over replay_events) ---------- *)
 Inductive cutsel := CutHead | CutSeq (s : N) | CutMsg (m : N).
 Definition head_seq (fs : list frame) : N := match rev fs with f :: _ => fseq f | [] => 0 end.
@@ -634,6 +682,10 @@ Definition check_case (k : consts) (c : case) : bool :=
      | Some comp, QLatestCkpt, full =>
        lN_eqb (enc_opt (status_ckpt_fast (k_ckpt_events k) (k_ckpt_bytes k)
                           (option_map (map (resolve_line (c_log c))) comp) full (c_log c))) (c_fast c)
+     | Some comp, QCutPoints stride limit, full =>
+       (stride =? 0) ||
+       lN_eqb (enc_cps (cut_points_fast (k_ckpt_events k) (k_ckpt_bytes k)
+                          (option_map (map (resolve_line (c_log c))) comp) full (c_log c) stride limit)) (c_fast c)
      | _, _, _ => true
      end
   && match c_recover c with
